@@ -13,7 +13,7 @@
 //                                     {b:-1,k:"cancel"} = the client cancels its request
 //   req  exact|hexoff|len|hints       how the requested hash relates to the honest manifest's
 //   rseed                             concretisation seed (manifest, signatures, tampering)
-//   craft loc_eol                     every collection sent is one specific malformed manifest (KF-C18-1)
+//   craft loc_eol                     every collection sent is one specific malformed manifest (regression for KF-C18-1)
 //
 // Abstraction (trusted base, kept small):
 //   vC18PDH   independent portable data hash: line/field tokenizer, hints of block locators dropped
